@@ -41,6 +41,9 @@ Definition w_srv_addr : bytes := [0;0;132;0;0;0;0;0;0;0;0;2;3;119;101;98;5;95;10
 Definition w_srv_h2_addr3 : bytes := [0;0;132;0;0;0;0;0;0;0;0;2;3;119;101;98;5;95;104;116;116;112;4;95;116;99;112;5;108;111;99;97;108;0;0;33;0;1;0;0;0;8;0;14;0;0;0;0;35;130;5;104;111;115;116;50;192;27;192;50;0;1;128;1;0;0;0;3;0;4;192;168;1;60] .
 Definition w_addr_h2 : bytes := [0;0;132;0;0;0;0;0;0;0;0;1;5;104;111;115;116;50;5;108;111;99;97;108;0;0;1;128;1;0;0;0;120;0;4;192;168;1;61] .
 
+(* round 6: a second address of host1 *)
+Definition w_addr_h1_new : bytes := [0;0;132;0;0;0;0;0;0;0;0;1;5;104;111;115;116;49;5;108;111;99;97;108;0;0;1;128;1;0;0;0;120;0;4;192;168;1;51] .
+
 Definition ex_ifs : iftab := [(2, (true, true)); (3, (true, false))].
 Definition T0 : N := 1000000.
 
@@ -379,4 +382,37 @@ Lemma again_srv_targets_witness :
      = [(false, false); (true, false); (true, false); (false, true); (true, false); (false, false)]
   /\ existsb is_again_fail (viol_C05 ex_ifs again_tgt_hist (ex_wakes again_tgt_hist)
                                      (map obs_of (run_history ex_ifs again_tgt_hist))) = true.
+Proof. repeat split; vm_compute; reflexivity. Qed.
+
+(* C03, clause "last advertised" (round 6).  Passing: the announce / update / goodbye history (the
+   update arrives 1.9 s after the announcement and flushes its predecessor), and an update 200 ms
+   after the announcement (two live SRV records coexist; the newer one is in front).
+   Failing (finding C03-reannounced-record-keeps-position, the daemon agrees): the older SRV is
+   announced again after the update; the next ServiceResolved still carries the port of the update *)
+Definition quick_hist : list iter :=
+  [ mkIter T0 [] [CBrowse n_ty 1];
+    mkIter (T0 + 100) [mkDgram 2 true w_full] [];
+    mkIter (T0 + 300) [mkDgram 2 true w_newport] [];
+    mkIter (T0 + 800) [mkDgram 2 true w_addr_h1_new] [];
+    mkIter (T0 + 2000) [] [] ].
+
+Definition reann_hist : list iter :=
+  [ mkIter T0 [] [CBrowse n_ty 1];
+    mkIter (T0 + 100) [mkDgram 2 true w_full] [];
+    mkIter (T0 + 300) [mkDgram 2 true w_newport; mkDgram 2 true w_full] [];
+    mkIter (T0 + 800) [mkDgram 2 true w_addr_h1_new] [];
+    mkIter (T0 + 2000) [] [] ].
+
+Lemma last_advertised_examples :
+  chk_C03_last ex_ifs ex_hist (run_history ex_ifs ex_hist) = true
+  /\ chk_C03_last ex_ifs quick_hist (run_history ex_ifs quick_hist) = true
+  /\ map (fun o => existsb is_resolved_evt o) (run_history ex_ifs quick_hist) = [false; true; true; true; false]
+  /\ known_reannounced (log_of_history ex_ifs quick_hist) = false.
+Proof. repeat split; vm_compute; reflexivity. Qed.
+
+Lemma reannounced_witness :
+  wf_history reann_hist = true
+  /\ known_reannounced (log_of_history ex_ifs reann_hist) = true
+  /\ chk_C03 ex_ifs reann_hist (run_history ex_ifs reann_hist) = true
+  /\ chk_C03_last ex_ifs reann_hist (run_history ex_ifs reann_hist) = false.
 Proof. repeat split; vm_compute; reflexivity. Qed.
